@@ -5,7 +5,7 @@
    both shapes are present under [pkg].  Tied to the code by the
    correspondence check (extracted and run against the real functions);
    proved equal to Spec in Refine_*.v. *)
-From Strcase Require Import Base Utf8.
+From Strcase Require Import Base Utf8 Spec.
 
 Inductive pkg := Str | Byt.
 
@@ -81,5 +81,146 @@ Fixpoint compare_ascii (p : pkg) (s t : bytes) : res Z :=
 Definition Compare (p : pkg) (s t : bytes) : res Z := compare_ascii p s t.
 Definition EqualFold (p : pkg) (s t : bytes) : res bool :=
   do c <- Compare p s t; Ok (c =? 0).
+
+(* ---- containsKelvin (after the D6 repair): modelled by the contract of
+   its callees indexRuneCase(s, U+212A) (a raw byte search for E2 84 AA)
+   and strings/bytes.Contains(s, "\uFFFD") ---- *)
+Definition fffd : bytes := [239; 191; 189].
+Definition raw_contains (pat s : bytes) : bool := 0 <=? raw_index_pats [pat] s 0.
+Definition contains_kelvin (s : bytes) : bool :=
+  negb (len s =? 0) && (raw_contains kelvin s || raw_contains fffd s).
+
+Definition is_nil (s : bytes) : bool := match s with [] => true | _ => false end.
+
+(* "if s[0] < RuneSelf { sr, s = rune(_lower[s[0]]), s[1:] } else { r, size := DecodeRune(s); sr, s = r, s[size:] }" *)
+Definition next_raw (s : bytes) : Z * bytes :=
+  match s with
+  | [] => (RuneError, [])
+  | b :: s' => if b <? 128 then (lower b, s')
+               else let d := decode s in (fst d, skipn (snd d) s)
+  end.
+
+(* ---- hasPrefixUnicode: (match, exhausted) ---- *)
+
+(* hasUnicode loop, strcase shape: for _, tr := range prefix *)
+Fixpoint hp_runes_str (fuel : nat) (s prefix : bytes) : res (bool * bool) :=
+  match fuel with
+  | O => OutOfFuel
+  | S f =>
+    match prefix with
+    | [] => Ok (true, is_nil s)
+    | _ :: _ =>
+      match s with
+      | [] => Ok (false, true)
+      | _ :: _ =>
+        let dt := decode prefix in
+        let tr := fst dt in
+        let '(sr, s') := next_raw s in
+        if (tr =? sr) || (fold tr =? fold sr) then hp_runes_str f s' (skipn (snd dt) prefix)
+        else Ok (false, is_nil s')
+      end
+    end
+  end.
+
+(* hasUnicode loop, bytcase shape: for len(t) > 0 { ... tr from _lower or DecodeRune } *)
+Fixpoint hp_runes_byt (fuel : nat) (s prefix : bytes) : res (bool * bool) :=
+  match fuel with
+  | O => OutOfFuel
+  | S f =>
+    match prefix with
+    | [] => Ok (true, is_nil s)
+    | _ :: _ =>
+      match s with
+      | [] => Ok (false, true)
+      | _ :: _ =>
+        let '(tr, t') := next_raw prefix in
+        let '(sr, s') := next_raw s in
+        if (tr =? sr) || (fold tr =? fold sr) then hp_runes_byt f s' t'
+        else Ok (false, is_nil s')
+      end
+    end
+  end.
+
+Definition hp_runes (p : pkg) := match p with Str => hp_runes_str | Byt => hp_runes_byt end.
+
+Fixpoint hp_ascii (p : pkg) (s prefix : bytes) : res (bool * bool) :=
+  match s, prefix with
+  | sr :: s', tr :: p' =>
+    if non_ascii2 sr tr then hp_runes p (S (length prefix)) s prefix
+    else if (tr =? sr) || (lower sr =? lower tr) then hp_ascii p s' p'
+    else Ok (false, is_nil s')                       (* i == len(s)-1 *)
+  | _, _ => Ok (is_nil prefix, is_nil s)             (* i == len(prefix), i == len(s) *)
+  end.
+
+Definition hasPrefixUnicode (p : pkg) (s prefix : bytes) : res (bool * bool) :=
+  if (len s * 3 <? len prefix) || ((len s * 2 <? len prefix) && negb (contains_kelvin prefix))
+  then Ok (false, true)
+  else hp_ascii p s prefix.
+
+Definition HasPrefix (p : pkg) (s prefix : bytes) : res bool :=
+  do r <- hasPrefixUnicode p s prefix; Ok (fst r).
+
+(* ---- TrimPrefix: a separate re-implementation in the source; returns the
+   (lo, hi) of the result in s ---- *)
+
+(* hasUnicode loop of TrimPrefix; [lo] = offset of the current s in the original *)
+Fixpoint tp_runes_str (fuel : nat) (slen : Z) (lo : Z) (s prefix : bytes) : res (Z * Z) :=
+  match fuel with
+  | O => OutOfFuel
+  | S f =>
+    match prefix with
+    | [] => Ok (lo, slen)
+    | _ :: _ =>
+      match s with
+      | [] => Ok (0, slen)
+      | _ :: _ =>
+        let dt := decode prefix in
+        let tr := fst dt in
+        let '(sr, s') := next_folded s in
+        if (tr =? sr) || (fold tr =? sr) then tp_runes_str f slen (lo + (len s - len s')) s' (skipn (snd dt) prefix)
+        else Ok (0, slen)
+      end
+    end
+  end.
+
+Fixpoint tp_runes_byt (fuel : nat) (slen : Z) (lo : Z) (s prefix : bytes) : res (Z * Z) :=
+  match fuel with
+  | O => OutOfFuel
+  | S f =>
+    match prefix with
+    | [] => Ok (lo, slen)
+    | _ :: _ =>
+      match s with
+      | [] => Ok (0, slen)
+      | _ :: _ =>
+        let '(tr, t') := next_folded prefix in
+        let '(sr, s') := next_folded s in
+        if (tr =? sr) || (fold tr =? sr) then tp_runes_byt f slen (lo + (len s - len s')) s' t'
+        else Ok (0, slen)
+      end
+    end
+  end.
+
+Definition tp_runes (p : pkg) := match p with Str => tp_runes_str | Byt => tp_runes_byt end.
+
+Fixpoint tp_ascii (p : pkg) (slen : Z) (i : Z) (s prefix : bytes) : res (Z * Z) :=
+  match s, prefix with
+  | sr :: s', tr :: p' =>
+    if non_ascii2 sr tr then tp_runes p (S (length prefix)) slen i s prefix
+    else if (tr =? sr) || (lower sr =? lower tr) then tp_ascii p slen (i + 1) s' p'
+    else Ok (0, slen)
+  | _, _ => if is_nil prefix then Ok (i, slen) else Ok (0, slen)   (* the D2 repair: i < len(prefix) -> s *)
+  end.
+
+Definition TrimPrefix (p : pkg) (s prefix : bytes) : res (Z * Z) :=
+  if (len s * 3 <? len prefix) || ((len s * 2 <? len prefix) && negb (contains_kelvin prefix))
+  then Ok (0, len s)
+  else tp_ascii p (len s) 0 s prefix.
+
+(* CutPrefix: "if len(prefix) == 0 return s, true; if ss := TrimPrefix(s, prefix); len(ss) != len(s) return ss, true; return s, false" *)
+Definition CutPrefix (p : pkg) (s prefix : bytes) : res (Z * Z * bool) :=
+  if is_nil prefix then Ok ((0, len s), true)
+  else do r <- TrimPrefix p s prefix;
+       if negb (snd r - fst r =? len s) then Ok (r, true) else Ok ((0, len s), false).
 
 End Impl.
